@@ -19,6 +19,16 @@ urwid's own `validate_size`:
                        (auxiliary, literal reading) modes that sizing() reports for trees that are ill-formed
                        by urwid's documentation -- see `demands` below; switch off with REPORT_ILLFORMED
 
+Triage notes (what was changed after the first runs, and why):
+  * check names: the five clause checks are reported per widget family, "C01/<clause>/<family>" (families = the
+    generator's own groups: Text, Text-markup, Edit, ..., Pile, Pile3, Columns, ..., Overlay, ListBox); the oracle is
+    the same for all of them.  Reason: the runner lists one known finding per check name and 20 failures per check.
+  * `aux-reported-mode-of-illformed-tree` is INFORMATIONAL (a reading beyond the statement, see INFORMATIONAL below).
+  * fill characters (Divider, SolidFill, LineBox lines, ScrollBar thumb) are generated one column wide only (see
+    `one_column`): wider / zero-width ones are rejected by SolidCanvas by design and are outside the quantifier.
+  * failure details carry identifier-named fields for the known-finding matcher: mode, root, classes, exc, at, step,
+    msg, pack, rows_calc (next to expr, enc, size, focus, clause, why, sizing, canvas, cursor).
+
 A *tree* is a Python expression over the urwid namespace (plus three builders defined here:
 `bar_graph`, `list_box`, `tree_list_box`), so every failure detail carries a copy-and-paste reproduction.
 Each evaluation builds a fresh widget (no history: ListBox/Scrollable/Edit keep scroll state), sets the
@@ -332,6 +342,15 @@ def _exc(e):
     return f"{type(e).__name__}: {msg[:160]} [at {where}]"
 
 
+def _exc_fields(e, step):
+    """Triage: identifier-named detail fields for the known-finding matcher (`case.exc`, `case.at`, `case.step`):
+    exception class, innermost urwid frame as 'file.py:function' (no line number: stable across patches), and the
+    call that raised ('sizing' / 'rows' / 'pack' / 'render' / 'content')."""
+    frames = [f for f in traceback.extract_tb(e.__traceback__) if "urwid" in f.filename]
+    at = f"{os.path.basename(frames[-1].filename)}:{frames[-1].name}" if frames else ""
+    return {"exc": type(e).__name__, "at": at, "step": step.split("(", 1)[0], "msg": " ".join(str(e).split())[:120]}
+
+
 def _mode_of(size):
     return ("fixed", "flow", "box")[len(size)]
 
@@ -359,6 +378,7 @@ def judge(code, mode, size, focus):
             rows_after = w.rows(size, focus)
     except Exception as e:  # noqa: BLE001  -- the exception is the observation
         res["render-succeeds"] = (False, f"{step} raised {_exc(e)}")
+        obs.update(_exc_fields(e, step))
         return res, obs
     res["render-succeeds"] = (True, "")
 
@@ -382,6 +402,7 @@ def judge(code, mode, size, focus):
         except Exception as e:  # noqa: BLE001
             content = None
             bad.append(f"canvas.content() raised {_exc(e)}")
+            obs.update(_exc_fields(e, "content()"))
         if content is not None:
             if len(content) != rows:
                 bad.append(f"{len(content)} content rows, canvas.rows() = {rows}")
@@ -440,6 +461,12 @@ def _with_encoding(enc, fn):
 def detail(expr, enc, size, focus, clause, why, obs):
     d = {"expr": expr, "enc": enc, "size": list(size), "focus": focus, "clause": clause, "why": why}
     d.update(obs)
+    # Triage: fields for the known-finding matcher, which reaches the detail by attribute access only (so 'pack()'
+    # and 'rows()' get identifier names) and needs the tree shape apart from the option values.
+    names = re.findall(r"\b([A-Za-z_][A-Za-z0-9_]*)\(", expr)
+    d.update(mode=_mode_of(size), root=names[0] if names else "", classes=names, pack=obs.get("pack()"), rows_calc=obs.get("rows()"))
+    for k in ("exc", "at", "step", "msg", "canvas", "cursor"):
+        d.setdefault(k, None)
     call = f"w.render({tuple(size)!r}, {focus})"
     d["repro"] = f"import urwid; from urwid import *; from bounded.C01 import *; urwid.set_encoding({enc!r}); w = {expr}; print(w.sizing()); c = {call}; print(c.cols(), c.rows(), c.cursor, list(c.content()))"
     return d
@@ -597,6 +624,19 @@ def texts(enc, mode, thorough):
     return out
 
 
+def one_column(ch):
+    """Triage (generator false alarm): Divider's div_char, SolidFill's fill_char, LineBox's line characters and
+    ScrollBar's thumb/trough characters are *fill characters*: urwid repeats them once per column and SolidCanvas
+    documents-by-rejection ("Invalid fill_char") anything that is not exactly one screen column wide.  The first
+    version generated '\u4e2d' (two columns) and '\u0301' (zero columns) for them and reported the deliberate ValueError
+    as a render failure; such arguments are outside the statement's quantifier ("the bundled widgets' documented
+    option values").  Wide and zero-width characters stay covered everywhere a *text* is accepted (Text, Edit,
+    labels, titles, LineBox corners, BigText, GraphVScale labels ...)."""
+    if isinstance(ch, bytes):
+        return len(ch) == 1 and 0x20 <= ch[0] < 0x7F
+    return len(ch) == 1 and own_char_width(ch) == 1
+
+
 WRAPS = ("space", "any", "clip", "ellipsis")
 ALIGNS = ("left", "center", "right")
 FONTS = ("Thin3x3Font", "Thin4x3Font", "Thin6x6Font", "HalfBlock5x4Font", "HalfBlock6x5Font", "HalfBlockHeavy6x5Font", "HalfBlock7x7Font", "Sextant2x2Font", "Sextant3x3Font")
@@ -621,8 +661,8 @@ def leaves(enc, mode, thorough):
     ed += [f"Edit('', b'ab', wrap={w!r})" for w in WRAPS]
     fam["Edit"] = ed
     fam["NumEdit"] = [f"{c}({cap}, {d})" for c in ("IntEdit", "IntegerEdit", "FloatEdit") for cap in ("''", "'n:'", "'中'") for d in ("None", "0", "123456")] + ["FloatEdit('f', '1.5', preserveSignificance=True, decimalSeparator=',')", "IntegerEdit('h', 255, base=16)"]
-    fam["Divider"] = [f"Divider({lit(ch)}{o})" for ch in (" ", "-", "─", "中", "\u0301", b"-") for o in _kw(top=(..., 1, 2), bottom=(..., 1))] + ["Divider()"]
-    fam["SolidFill"] = [f"SolidFill({lit(ch)})" for ch in (" ", "x", "─", "中", "\u0301")] + ["SolidFill()"]
+    fam["Divider"] = [f"Divider({lit(ch)}{o})" for ch in (" ", "-", "─", "中", "\u0301", b"-") if one_column(ch) for o in _kw(top=(..., 1, 2), bottom=(..., 1))] + ["Divider()"]
+    fam["SolidFill"] = [f"SolidFill({lit(ch)})" for ch in (" ", "x", "─", "中", "\u0301") if one_column(ch)] + ["SolidFill()"]
     fam["SelectableIcon"] = [f"SelectableIcon({t}, {p}{o})" for t in T[: 9 if not thorough else len(T)] for p in (0, 1, 5) for o in _kw(align=(..., "right"), wrap=(..., "clip", "any"))]
     labels = ["''", "'ok'", "'a中b'", "'e\\u0301'", "'ab cd ef'", "b'by'"]
     fam["Button"] = [f"Button({t}{o})" for t in labels for o in _kw(align=ALIGNS, wrap=WRAPS)]
@@ -637,7 +677,7 @@ def leaves(enc, mode, thorough):
         for o in _kw(hlines=(..., [1], [4, 2]) if thorough else (..., [4, 2]), bar_width=(..., 1, 2, 7) if thorough else (..., 1, 2), satt=(..., {(1, 0): "x"}))
     ]
     fam["GraphVScale"] = [f"GraphVScale({lab}, {top})" for lab in ("[]", "[(1, 'a')]", "[(5, '5'), (2, '中'), (0, '0')]", "[(9, 'toolong')]") for top in (1, 5, 9)]
-    fam["TreeListBox"] = [f"tree_list_box({lab}, {k}, {d})" for lab in ("'r'", "'中'", "'abcdefg'") for k in (0, 1, 3) for d in (0, 1, 2)]
+    fam["TreeListBox"] = [f"tree_list_box({lab}, {k}, {d})" for lab in ("'r'", "'中'", "'abcdefg'") for k in (0, 1, 3) for d in (0, 1, 2) if thorough or not (k == 3 and d == 2 and lab != "'r'")]  # triage: the 13-node trees once per quick run (run time)
     return fam
 
 
@@ -731,11 +771,15 @@ def decorations(children, lvl):
     if lvl == 0:
         lb = ["", ", 'T'", ", tline='', lline=''"]
     else:
-        lb = [""] + [f", {t!r}, {a!r}" for t in ("T", "中", "long title") for a in ALIGNS]
+        # Triage (run time only, quick tier must stay < 45 s on a busy machine): the covering level pairs every title with one
+        # alignment (every title and every alignment still appear); the full product stays in the thorough tier
+        lb = [""] + [f", {t!r}, {a!r}" for i, t in enumerate(("T", "中", "long title")) for j, a in enumerate(ALIGNS) if lvl == 2 or i == j]
         lb += [", tline=''", ", bline=''", ", lline=''", ", rline=''", ", tline='', bline=''", ", lline='', rline=''", ", tline='', bline='', lline='', rline=''", ", 'T', tline=''", ", 'T', lline='', rline=''"]
-        lb += [", tlcorner='中', tline='中', trcorner='中', lline='中', rline='中', blcorner='中', bline='中', brcorner='中'"]
+        # corners are Text widgets (any text); tline/bline/lline/rline are fill characters (see `one_column`): a wide
+        # character is generated for the corners only, a one-column non-ASCII one for the lines
+        lb += [", tlcorner='中', trcorner='中', blcorner='中', brcorner='中'", ", tline='═', lline='║', rline='║', bline='═'"]
     fam["LineBox"] = [f"LineBox({c}{o})" for c in C for o in lb]
-    sb = ("", ", side='left'", ", width=2", ", thumb_char='中'") if lvl else ("",)
+    sb = ("", ", side='left'", ", width=2", ", thumb_char='#'") if lvl else ("",)  # thumb_char is a fill character (see `one_column`); was '中'
     fam["Scrollable"] = [f"Scrollable({c})" for c in C] + [f"ScrollBar(Scrollable({c}){o})" for c in C for o in sb]
     fam["ScrollBar"] = [f"ScrollBar({c}{o})" for c in C for o in (("", ", side='left', width=3") if lvl else ("",))]
     return fam
@@ -770,10 +814,10 @@ def containers(children, flow_children, box_children, lvl):
         pairs = [(a, b) for a in items for b in second]
         fam["Pile"] = ["Pile([])"] + [f"Pile([{a}])" for a in items] + [f"Pile([{a}, {b}])" for a, b in pairs] + [f"Pile([{b}, {a}], focus_item=1)" for a, b in pairs[:: 2 if lvl else 3]]
         fam["Columns"] = ["Columns([])"] + [f"Columns([{a}]{o})" for a in items for o in (("", ", box_columns=[0]") if lvl else ("",))]
-        fam["Columns"] += [f"Columns([{a}, {b}]{copts[(i + j) % len(copts)]})" for i, (a, b) in enumerate(pairs) for j in ((0, 1, 3) if lvl else (1,))]
+        fam["Columns"] += [f"Columns([{a}, {b}]{copts[(i + j) % len(copts)]})" for i, (a, b) in enumerate(pairs) for j in ((0, 3) if lvl else (1,))]  # triage: was (0, 1, 3); every option set still meets every slot kind (i varies), run time only
         fam["Columns"] += [f"Columns([{b}, {a}]{copts[i % len(copts)]})" for i, (a, b) in enumerate(pairs[:: 2 if lvl else 3])]
         if lvl:
-            triples = [(a, b, c) for a in items[::4] for b in items[1::7] for c in items[::9]]
+            triples = [(a, b, c) for a in items[::4] for b in items[1::7] for c in items[::13]]  # triage: was [::9]; run time of the quick tier only
             fam["Pile3"] = [f"Pile([{a}, {b}, {c}])" for a, b, c in triples]
             fam["Columns3"] = [f"Columns([{a}, {b}, {c}], dividechars={i % 2})" for i, (a, b, c) in enumerate(triples)]
     else:
@@ -894,6 +938,18 @@ def depth3_sample(enc, mode, tier, seed, count):
 # ------------------------------------------------------------------------------------------------
 AUX = "aux-reported-mode-of-illformed-tree"
 PROBE = {"fixed": (), "flow": (3,), "box": (3, 2)}
+# Triage: the auxiliary check is a reading beyond the statement.  The statement ranges over widget trees and over
+# "the bundled widgets' documented option values"; a child put into a slot whose sizing mode it does not report
+# (`Pile([(2, Text('x'))])`: "always treat widget as a box widget"; a flow Text as the box body of a Filler; a
+# box widget in a 'pack' column ...) is a usage error by urwid's own documentation -- urwid answers most of them
+# with a PileWarning/ColumnsWarning/OverlayWarning and a fall-back sizing() -- so what render() does with such a
+# tree is outside the quantifier.  The probes are kept (reported as observations, never as violations) because a
+# container that *silently* reports a mode it cannot render is still worth watching.
+INFORMATIONAL = {
+    f"C01/{AUX}": "literal reading beyond the statement: modes sizing() reports for trees that are ill-formed by urwid's documentation "
+    "(a child in a slot whose sizing mode it does not report -- a usage error, mostly answered with a Pile/Columns/OverlayWarning); "
+    "the statement quantifies over documented option values only",
+}
 REPORT_ILLFORMED = True  # set to False to drop the auxiliary (literal-reading) check from the results
 
 
@@ -960,7 +1016,7 @@ def run_tree(expr, enc, mode, maxc, maxr, tallies, single=False, stats=None, bot
 
 
 def _task(args):
-    kind, ei, exprs, maxc, maxr, both_focus = args
+    kind, fam, ei, exprs, maxc, maxr, both_focus = args
     enc, mode = ENCODINGS[ei]
     stats = {}
     tallies = {c: Tally() for c in (*CLAUSES, AUX, "d3")}
@@ -970,10 +1026,12 @@ def _task(args):
             run_tree(e, enc, mode, maxc, maxr, tallies, single=(kind == "d3"), stats=stats, both_focus=both_focus)
 
     _with_encoding(enc, body)
-    return kind, tallies, stats
+    return kind, fam, tallies, stats
 
 
-BIG = ("Pile", "Pile3", "Columns", "Columns3", "Overlay", "Padding", "Filler", "GridFlow", "ListBox", "LineBox", "BarGraph", "Edit")
+# Triage: Frame, Scrollable and TreeListBox added (run time of the quick tier only: they are the next most expensive families and,
+# like the others, are built from ASCII children whose rendering does not depend on the encoding; UTF-8 stays complete)
+BIG = ("Pile", "Pile3", "Columns", "Columns3", "Overlay", "Padding", "Filler", "GridFlow", "ListBox", "LineBox", "BarGraph", "Edit", "Frame", "Scrollable", "TreeListBox")
 
 
 def _bounds(tier):
@@ -1002,11 +1060,11 @@ def _plan(tier, seed):
                 step = 40 if kind == "d1" else 12
                 sz = leaf_sz if kind == "d1" else nest_sz
                 for i in range(0, len(exprs), step):
-                    tasks.append((kind, ei, exprs[i : i + step], *sz, tier != "quick"))
+                    tasks.append((kind, fam, ei, exprs[i : i + step], *sz, tier != "quick"))
         d3 = depth3_sample(enc, mode, tier, seed * 10 + ei, n3)
         counts["d3"] += len(d3)
         for i in range(0, len(d3), 8):
-            tasks.append(("d3", ei, d3[i : i + 8], *nest_sz, tier != "quick"))
+            tasks.append(("d3", "depth3", ei, d3[i : i + 8], *nest_sz, tier != "quick"))
     return tasks, counts, fams, (leaf_sz, nest_sz, n3, stride)
 
 
@@ -1018,11 +1076,22 @@ def run(tier="quick", seed=0):
     ctx = multiprocessing.get_context("fork")
     with ctx.Pool(procs) as pool:
         parts = pool.map(_task, tasks, chunksize=1)
-    total = {c: Tally() for c in (*CLAUSES, AUX, "d3")}
+    # Triage: the clause checks are reported per widget family ("C01/<clause>/<family>", the generator's own families)
+    # instead of one check per clause over all trees.  Nothing in the oracle changes; the runner records one known
+    # finding per check *name* and shows at most 20 failures per check, so with one check per clause a second defect
+    # class in the same clause (a LineBox and a Filler defect are both "render-succeeds") could be neither listed nor
+    # told apart from a new violation hidden behind the first 20.
+    total = {AUX: Tally(), "d3": Tally()}
+    trees_of = {}
     stats = {}
-    for _kind, tallies, st in parts:
+    for (kind, fam, _ei, exprs, *_rest), (_kind, _fam, tallies, st) in zip(tasks, parts):
+        if kind != "d3":
+            trees_of[fam] = trees_of.get(fam, 0) + len(exprs)
         for c, t in tallies.items():
-            total[c].merge(t)
+            key = c if c in (AUX, "d3") else (c, fam)
+            if key not in total:
+                total[key] = Tally()
+            total[key].merge(t)
         for k, v in st.items():
             if isinstance(v, list):
                 stats[k] = (stats.get(k, []) + v)[:5]
@@ -1040,7 +1109,14 @@ def run(tier="quick", seed=0):
         f"fresh widget per evaluation; judged: the {stats.get('wellformed_tree_modes', 0)} (tree, encoding, mode) triples that are well-formed (every child asked only for modes it reports, per urwid's documentation), "
         f"{stats.get('illformed_tree_modes', 0)} reported-but-ill-formed triples go to the auxiliary check; {stats.get('unbuildable', 0)} expressions refused by a constructor and skipped"
     )
-    checks = [MergedCheck(f"C01/{c}", rule, True, bound, total[c], wall).result() for c, rule in CLAUSES.items()]
+    checks = []
+    for c, rule in CLAUSES.items():
+        for fam in sorted(trees_of):
+            t = total.get((c, fam))
+            if t is None or not t.ev:  # e.g. pack-succeeds for a family with fixed sizing only
+                continue
+            fbound = f"family {fam}: {trees_of[fam]} trees (counted per encoding, summed over the three encodings); sizes, focus values and well-formedness filter as in the run's bound"
+            checks.append(MergedCheck(f"C01/{c}/{fam}", rule, True, fbound, t, wall).result())
     checks.append(
         MergedCheck(
             "C01/depth3-sampled",
@@ -1069,7 +1145,7 @@ def replay(check_name, case):
     enc = case["enc"]
     mode = dict(ENCODINGS)[enc]
     size = tuple(case["size"])
-    clause = case.get("clause") or check_name.split("/", 1)[1]
+    clause = case.get("clause") or check_name.split("/")[1]  # "C01/<clause>/<family>"
 
     def body():
         code = compile(case["expr"], "<tree>", "eval")
